@@ -240,18 +240,30 @@ fn case<T: Obs>(c: &mut Ctx, x: T, dur: TimeDelta, tag: &str) {
                     c.count(&format!("{nm}:span-not-day-aligned"));
                 }
                 if leap {
-                    // on the line that counts the leap second the result is the right multiple (checked
-                    // below); read back as a plain timestamp it is 1 s short of it when the move leaves
-                    // the leap second forwards: recorded as a finding counter (see Props/C17.lean,
-                    // `leap_second_round_up_reads_back_short`)
+                    // KNOWN FINDING F19 (known_findings.json; Props/C17.lean
+                    // `leap_second_round_up_reads_back_short`): on the line that counts the leap second
+                    // the result is the right multiple (checked below with the normal what-strings); read
+                    // back as a plain timestamp it is 1 s short of the specified multiple when the move
+                    // leaves the leap second forwards.  Raised only for inputs whose nanosecond field is
+                    // >= 10^9; the same deviation on any other input is reported by the oracles below.
                     if crossed {
-                        c.count("finding:leap-second input rounded upwards past the leap second");
-                        if wall_line(&r).rem_euclid(span) != 0 {
-                            c.count("finding:leap-second input: timestamp of the result is not a multiple of the span");
-                            if span == 60 * NS || span == 7 * NS {
-                                c.sample(&format!("FINDING leap-second input: {:?}.duration_{}({} ns) = {:?}, whose timestamp is 1 s before a multiple", x, if nm == "up" { "round_up" } else { nm }, span, r));
-                            }
-                        }
+                        c.count("leap:rounded upwards past the end of the leap second");
+                    }
+                    if wall_line(&r) != op.spec(w, span) {
+                        c.count("leap:timestamp of the result is not the specified multiple (F19)");
+                        c.fail(
+                            "leap-second input: rounding result is not the specified multiple",
+                            &format!(
+                                "{:?}.duration_{}({} ns) = {:?}: wall-clock stamp {} -> {}, specified multiple {}",
+                                x,
+                                if nm == "up" { "round_up" } else { nm },
+                                span,
+                                r,
+                                w,
+                                wall_line(&r),
+                                op.spec(w, span)
+                            ),
+                        );
                     }
                 } else if wall_line(&r) != wr {
                     c.fail(&what("internal: result position"), &ctxs);
@@ -632,9 +644,9 @@ pub fn run(c: &mut Ctx) {
         let r = guard(|| x.duration_round_up(TimeDelta::minutes(1)));
         let want = NaiveDate::from_ymd_opt(2017, 1, 1).unwrap().and_hms_opt(0, 0, 59).unwrap();
         if r == Ok(Ok(want)) {
-            c.count("finding:2016-12-31T23:59:60.5 .duration_round_up(1 min) = 2017-01-01T00:00:59 (reproduced)");
+            c.count("leap:F19 example 2016-12-31T23:59:60.5 .duration_round_up(1 min) = 2017-01-01T00:00:59 (reproduced)");
         } else {
-            c.count("finding:2016-12-31T23:59:60.5 .duration_round_up(1 min) no longer gives 00:00:59");
+            c.count("leap:F19 example 2016-12-31T23:59:60.5 .duration_round_up(1 min) no longer gives 00:00:59");
             c.sample(&format!("leap-second finding not reproduced: got {:?}", r));
         }
         case(c, x, TimeDelta::minutes(1), "leap");
